@@ -299,6 +299,11 @@ func ruleBNameTest(w *World, r *Report) {
 		return
 	}
 	r.FuncsAnalysed[fnName(pred)] = true
+	// by outcome where the predicate reduces to constants (rules_nametest_ai.go);
+	// path enumeration of its conditions otherwise
+	if w.nameTestByInterp(r, predFactory, pred) {
+		return
+	}
 	all, _ := w.allNodeConst()
 	desc := func(v ssa.Value) string { return w.ntDescribe(pred, v, all) }
 	// enumerate paths
